@@ -128,11 +128,11 @@ def register_handler(R):
     R.module("easynetwork/lowlevel/api_async/backend/abc.py")
     R.assume("backend.timeout(delay) rejects a delay that is not a usable number (NaN, a non-number yielded by a handler) with ValueError / TypeError "
              "before creating the scope (observed: asyncio backend raises ValueError('deadline is NaN'))")
-    R.ghost(bad_timeouts="int")
+    R.ghost(bad_timeouts="int", timeout_scopes="int")
     R.contract("AsyncBackend.timeout", variant="yielded", params={"delay": "xreal"}, result="CancelScopeModel", trusted=True,
                ensures=["not result.caught", "result.raise_timeout", "ghost.bad_timeouts == old(ghost.bad_timeouts)"],
                raises={"ValueError": ["ghost.bad_timeouts == old(ghost.bad_timeouts) + 1"], "TypeError": ["ghost.bad_timeouts == old(ghost.bad_timeouts) + 1"]},
-               modifies=["ghost.bad_timeouts"])
+               modifies=["ghost.bad_timeouts", "ghost.timeout_scopes"], env={"ghost_on_call": {"timeout_scopes": "ghost.timeout_scopes + 1"}})
     R.module("easynetwork/lowlevel/api_async/servers/datagram.py")
     OWN = ("an-Exception-leaves-the-client-task-only-if-the-handler-generator-itself-raised-it (what the server's own code raises on this client's "
            "behalf - an unusable yielded timeout, a crashing parser - is thrown INTO the handler)",
